@@ -55,6 +55,18 @@ class World:
                                                                      geometry=lat["dim"], name=lat["name"])
         for d in dens:
             self.add(d, None, "density:" + d.name)
+        tri = spec.get("tri")
+        if tri:
+            # a free-standing conditional distribution whose mean is a function of three conditioning variables (conditioned in several steps)
+            self.values.update({"ta": 0.3, "tb": -0.2, "tc": 0.1, "td": 0.7})
+            if tri == "normal":
+                self.values["w3"] = np.array([0.4])
+                t3 = cuqi.distribution.Normal(mean=lambda ta, tb, tc: ta + 10 * tb + 100 * tc, std=1.5, name="w3")
+            else:
+                self.values["w3"] = np.array([0.4, -0.3])
+                t3 = cuqi.distribution.Gaussian(mean=lambda ta, tb, tc: (ta + 10 * tb + 100 * tc) * np.array([1.0, -0.5]),
+                                                cov=lambda td: abs(td) + 0.5, geometry=2, name="w3")
+            self.add(t3, None, "density:w3")
         refused, J = refuses(lambda: cuqi.distribution.JointDistribution(*dens))
         if not refused:
             self.add(J, None, "joint")
@@ -346,9 +358,9 @@ def make_machine(rec, tier):
                 type(self).failure = (jsonable(self.w.trace), v, {"steps": self.nsteps})
                 raise
 
-        @initialize(spec=graphs.graph_spec(max_dim=3, max_data=2), reg=st.booleans())
-        def init(self, spec, reg):
-            spec = dict(spec, reg_latent=bool(reg))
+        @initialize(spec=graphs.graph_spec(max_dim=3, max_data=2), reg=st.booleans(), tri=st.sampled_from([None, "normal", "gaussian"]))
+        def init(self, spec, reg, tri):
+            spec = dict(spec, reg_latent=bool(reg), tri=tri)
             self.guarded(lambda: self.w.init_graph(spec))
 
         @rule(i=st.integers(0, 40), mask=st.integers(1, 31), positional=st.booleans(), variant=st.sampled_from([1.0, 0.8, 0.6, 1.000001]))
@@ -407,7 +419,87 @@ def run_trace(c, rec):
         w.check_invariant()
 
 
+# ----------------------------------------------------------------------------- names of conditioned copies
+
+NAME_FAMILIES = ["Gaussian", "Normal", "Gamma", "LMRF", "GMRF", "RegularizedGaussian", "ConstrainedGaussian", "NonnegativeGaussian",
+                 "RegularizedGMRF", "ConstrainedGMRF", "NonnegativeGMRF"]
+
+
+@st.composite
+def name_cases(draw, tier="quick"):
+    return {"family": draw(st.sampled_from(NAME_FAMILIES)), "explicit": draw(st.booleans()), "lookup_first": draw(st.booleans()),
+            "two_steps": draw(st.booleans()), "order": draw(st.booleans()), "m": draw(gen.fl(-1, 1)), "s": draw(gen.fl(0.3, 2.0)),
+            "value": draw(gen.vec(3, 0.1, 1.0)), "then_self": draw(st.booleans())}
+
+
+def _named_family(c, nm):
+    import cuqi
+    D, I = cuqi.distribution, cuqi.implicitprior
+    kw = {"name": nm} if nm else {}
+    n = 3
+    mean = lambda mu_: mu_ * np.ones(n)
+    f = c["family"]
+    if f == "Gaussian":
+        return D.Gaussian(mean, cov=lambda sg_: sg_, geometry=n, **kw)
+    if f == "Normal":
+        return D.Normal(mean=lambda mu_: mu_, std=lambda sg_: sg_, **kw)
+    if f == "Gamma":
+        return D.Gamma(shape=lambda mu_: abs(mu_) + 1.0, rate=lambda sg_: sg_, **kw)
+    if f == "LMRF":
+        return D.LMRF(lambda mu_: mu_ * np.ones(n), lambda sg_: sg_, geometry=n, **kw)
+    if f == "GMRF":
+        return D.GMRF(mean, lambda sg_: sg_, geometry=n, **kw)
+    if f == "RegularizedGaussian":
+        return I.RegularizedGaussian(mean, cov=lambda sg_: sg_, constraint="nonnegativity", geometry=n, **kw)
+    if f == "ConstrainedGaussian":
+        return I.ConstrainedGaussian(mean, cov=lambda sg_: sg_, constraint="nonnegativity", geometry=n, **kw)
+    if f == "NonnegativeGaussian":
+        return I.NonnegativeGaussian(mean, cov=lambda sg_: sg_, geometry=n, **kw)
+    # (the regularised GMRFs take the dimension from a constant mean: one conditioning variable)
+    if f == "RegularizedGMRF":
+        return I.RegularizedGMRF(np.zeros(n), prec=lambda sg_: sg_, constraint="nonnegativity", **kw)
+    if f == "ConstrainedGMRF":
+        return I.ConstrainedGMRF(np.zeros(n), prec=lambda sg_: sg_, constraint="nonnegativity", **kw)
+    return I.NonnegativeGMRF(np.zeros(n), prec=lambda sg_: sg_, **kw)
+
+
+def run_names(c, rec):
+    """a conditioned copy reports the random-variable name of its original - whether that name was given explicitly or is the Python
+    variable the original is bound to, whether or not it had been looked up before, and through several conditioning steps"""
+    import cuqi
+    tags = {"family": c["family"], "name": "explicit" if c["explicit"] else "variable", "lookup_first": c["lookup_first"], "steps": 2 if c["two_steps"] else 1}
+    if rec.classify(tags, True):
+        return
+    want = "qq" if c["explicit"] else "prior_q"
+    prior_q = must(lambda: _named_family(c, "qq" if c["explicit"] else None), "constructing a conditional distribution")
+    if c["lookup_first"]:
+        require(prior_q.name == want, "a distribution does not report its name", got=prior_q.name, want=want)
+    first, second = (("mu_", c["m"]), ("sg_", c["s"])) if c["order"] else (("sg_", c["s"]), ("mu_", c["m"]))
+    single = c["family"] in ("RegularizedGMRF", "ConstrainedGMRF", "NonnegativeGMRF")
+    if single:
+        first = ("sg_", c["s"])
+    copy_a = must(lambda: prior_q(**{first[0]: first[1]}), "conditioning on one of two conditioning variables")
+    last = copy_a
+    got = must(lambda: copy_a.name, "reading the name of a conditioned copy")
+    require(got == want, "a conditioned copy does not report the random-variable name of its original", copy=got, original=want, step=1)
+    if c["two_steps"] and not single:
+        copy_b = must(lambda: copy_a(**{second[0]: second[1]}), "conditioning the copy on the remaining variable")
+        got = must(lambda: copy_b.name, "reading the name of a twice conditioned copy")
+        require(got == want, "a twice conditioned copy does not report the random-variable name of its original", copy=got, original=want, step=2)
+        last = copy_b
+    require(prior_q.name == want, "the original's name changed by conditioning", got=prior_q.name, want=want)
+    if c["then_self"] and (c["two_steps"] or single):
+        # conditioning a copy on the random variable itself (by the original's name) gives a likelihood / an evaluated density
+        v = A(c["value"])[:1] if c["family"] in ("Normal", "Gamma") else A(c["value"])
+        out = must(lambda: last(**{want: v}), "conditioning a conditioned copy on its own random variable")
+        require(isinstance(out, (cuqi.likelihood.Likelihood, cuqi.density.EvaluatedDensity)),
+                "conditioning on the random variable itself does not give a likelihood / evaluated density", got=type(out).__name__)
+        if isinstance(out, cuqi.likelihood.Likelihood):
+            require(out.name == want, "the likelihood of a conditioned copy does not carry the random-variable name", got=out.name, want=want)
+
+
 SUBCHECKS = [
     SubCheck("C11/immutability_machine", run_trace, machine=make_machine, n={"quick": 600, "thorough": 6000}, shards={"quick": 12, "thorough": 16},
              steps={"quick": 25, "thorough": 50}),
+    SubCheck("C11/copy_names", run_names, strategy=name_cases, n={"quick": 400, "thorough": 6000}, shards={"quick": 2, "thorough": 8}),
 ]
